@@ -27,6 +27,9 @@ def handle (ln : String) : Out :=
     match eraType era, parseNat? a, parseNat? b, parseNat? mx, parseNat? fee, parseNat? n, parseHex? hex with
     | some et, some a, some b, some mx, some fee, some n, some bytes =>
       if a > u64max || b > u64max || mx > u64max || fee > u64max then badOp else
+      -- the component count is read from the bytes by the byte-layer parser; the op's n
+      -- must agree with it (the harness compares it with an independent decode)
+      if envCount bytes ≠ some n then { model := "n-mismatch", spec := "*" } else
       let t : Tx := { eraType := et, bytes := bytes, n := n, fee := fee }
       if !decodeOk t then { model := "decode-err", spec := "*" } else
       let size := txSizeForFee t
